@@ -680,6 +680,18 @@ func c27ForRedis(e c27Event) c27Event {
 
 var c27Millis = map[string]float64{}
 
+func c27TimedOut(o *c27Obs) bool {
+	if o == nil {
+		return false
+	}
+	for _, f := range o.fails {
+		if strings.Contains(f.detail, "i/o timeout") {
+			return true
+		}
+	}
+	return false
+}
+
 func c27RunCase(r *vlib.Run, p c27Provider, c c27Case) {
 	t0 := time.Now()
 	defer func() { c27Millis[p.name] += float64(time.Since(t0).Microseconds()) / 1000 }()
@@ -690,7 +702,22 @@ func c27RunCase(r *vlib.Run, p c27Provider, c c27Case) {
 	r.Eval()
 	var o *c27Obs
 	var class string
-	panicked, msg, site := vlib.Guard(func() { o, class = c27RunOnce(p, c.History, c.Event, true) })
+	var panicked bool
+	var msg, site string
+	// The go-redis client has a 3 s socket timeout that cannot be configured through
+	// redis.NewDatabase; on an overloaded machine a miniredis round trip can exceed it.
+	// A timeout is a wall-clock artefact, never a verdict: the case is rebuilt and re-run.
+	for attempt := 0; ; attempt++ {
+		panicked, msg, site = vlib.Guard(func() { o, class = c27RunOnce(p, c.History, c.Event, true) })
+		if panicked || !c27TimedOut(o) {
+			break
+		}
+		if attempt == 5 {
+			r.Cap("redis socket timeout persisted over 6 attempts of one case (overloaded machine); case not decided")
+			return
+		}
+		time.Sleep(200 * time.Millisecond)
+	}
 	if panicked {
 		r.Violation(site, "go-panic", p.name+";"+c.Event.Kind, fmt.Sprintf("event %s: %s", c27EvString(c.Event), msg), c)
 		return
@@ -703,7 +730,12 @@ func c27RunCase(r *vlib.Run, p c27Provider, c c27Case) {
 	rerun := func(scribble bool, mode int) *c27Obs {
 		var po *c27Obs
 		c27ScribbleMode = mode
-		vlib.Guard(func() { po, _ = c27RunOnce(p, c.History, c.Event, scribble) })
+		for attempt := 0; attempt < 6; attempt++ {
+			vlib.Guard(func() { po, _ = c27RunOnce(p, c.History, c.Event, scribble) })
+			if !c27TimedOut(po) {
+				break
+			}
+		}
 		c27ScribbleMode = 3
 		return po
 	}
